@@ -1,4 +1,5 @@
 import Brax.Lemmas.C02Root
+import Brax.Lemmas.C02FullM
 import Brax.Lemmas.ScanLevelsRev
 import Brax.Props.C01
 /-!
@@ -779,5 +780,150 @@ theorem d2_cdof (c : V3 ℝ) :
   · rfl
   · simp only [rotate, V3.dot, V3.cross, Q4.vec]
     apply V3.ext' <;> simp only <;> norm_num
+
+/-! ## the mass matrix equals the reference engine's, entry by entry
+
+`mass.matrix` (block form: one block per pair of links, ancestor mask, lower triangle mirrored,
+armature on the diagonal, composite inertias as brax `Inertia` leaves) against the Spec's `fullM`
+(MuJoCo's `mj_crb`: flat dof indexing, `dof_parentid` chain walk, composite inertias as MuJoCo's 10
+numbers, `+ dof_armature` on the diagonal).  Lemmas: `Brax/Lemmas/C02FullM.lean`. -/
+
+/-- **the composite rigid-body inertias agree**: the representation change brax `Inertia` ↔
+MuJoCo's `cinert` (`SameInertia`: same rotational part, same `m·offset`, same mass) commutes with
+the backward accumulation — every forest, any commutative ring. -/
+theorem crb_eq_mj {R : Type} [CommRing R] (ps : List Int) (cinr : List (Inertia R))
+    (cinert : List (MjD.CInert R)) (hI : List.Forall₂ SameInertia cinr cinert) :
+    List.Forall₂ SameInertia (crb ps cinr) (revAcc MjD.CInert.add ps cinert) :=
+  crb_same ps cinr cinert hI
+
+/-- **the `dof_parentid` chain of MuJoCo visits exactly the dofs brax's ancestor mask keeps**: the
+chain started at dof `r` of link `l` contains dof `s` of link `a` iff `a = l ∧ s ≤ r`, or `a` is a
+strict ancestor of `l` (`ancs` = the `while j > -1` walk over `link_parents`) — every forest whose
+parents precede their children, every assignment of link types. -/
+theorem dofChain_mem_iff (ts : List LinkType) (ps : List Int) (hps : ps.length = ts.length) (hwf : PWF ps)
+    (l r a s : Nat) (hl : l < ts.length) (hr : r < Tw ts l) (ha : a < ts.length) (hs : s < Tw ts a) :
+    offs (Tw ts) a + s ∈ MjD.dofChain (MjD.dofParent ts ps) (offs (Tw ts) l + r + 1) (offs (Tw ts) l + r)
+      ↔ (a = l ∧ s ≤ r) ∨ (a ≠ l ∧ a ∈ ancs ps l) := by
+  rw [dofChain_eq_ancs]
+  exact chain_mem ts ps hps hwf l hl r hr a s ha hs
+
+/-- **`mass.matrix` = `mj_crb` + armature, as matrices** (generic form): for every forest whose
+parents precede their children, every `cdof` (nested per link), every two link-inertia lists that
+describe the same forms, every armature given nested (`arm`) and flat (`armF`), and link types `ts`
+whose widths are the row widths of `cdof` (`WidthsOK`: up to the last link that has a dof at all) —
+the block-form matrix of the model **is** the Spec's dense `fullM`, as lists of rows.  Any commutative
+ring (so it also runs on the exact integer lattice of the correspondence). -/
+theorem massMatrix_eq_fullM_of_same {R : Type} [CommRing R] (ts : List LinkType) (ps : List Int)
+    (cinr : List (Inertia R)) (cinert : List (MjD.CInert R)) (cdof : List (List (Motion R)))
+    (arm : List (List R)) (armF : List R)
+    (hps : ps.length = cdof.length) (hts : ts.length = cdof.length) (hcinr : cinr.length = cdof.length)
+    (hwf : PWF ps) (hI : List.Forall₂ SameInertia cinr cinert) (hW : WidthsOK ts (wAt cdof))
+    (harm : ∀ l r, l < cdof.length → r < wAt cdof l →
+      armAt arm l r = armF.getD (offs (wAt cdof) l + r) 0) :
+    massMatrix ps cinr cdof arm
+      = MjD.fullM ts ps (revAcc MjD.CInert.add ps cinert) cdof.flatten armF :=
+  massMatrix_eq_fullM ts ps cinr cinert cdof arm armF hps hts hcinr hwf hI hW harm
+
+/-- **the composite inertias of the pipeline equal MuJoCo's `crb`** for every `DynOK` system and
+state. -/
+theorem pipeline_crb_eq_mj (s : Sys ℝ) (q qd ctrl : List ℝ) (h : DynOK s q qd) :
+    List.Forall₂ SameInertia (crb s.parents (dynInit s q qd).com.cinr) (MjD.forwardData s q qd ctrl).crb := by
+  have h' : DynOK { s with acts := [] } q qd := ⟨h.parents, h.links, h.wf, h.low, h.kin, h.basis⟩
+  obtain ⟨_, _, _, _, hcinr', _, _⟩ :=
+    dynamics_eq_mj { s with acts := [] } q qd ctrl h' (by intro a ha; simp at ha)
+  have hcinr : List.Forall₂ SameInertia (dynInit s q qd).com.cinr (MjD.forwardData s q qd ctrl).cinert :=
+    hcinr'
+  exact crb_eq_mj s.parents _ _ hcinr
+
+/-- **The generalized pipeline's mass matrix equals the reference engine's, entry by entry.**
+For every `DynOK` system and state (the hypotheses of `dynamics_eq_mj`; the actuators are not
+read), `pipeline.init(sys, q, qd).mass_mx` — `mass.matrix` applied to the `cinr`, `cdof` of
+`transform_com` and `dof.armature` — **is** the Spec's `fullM` (MuJoCo's composite-rigid-body
+matrix `mj_crb`, dense as `mj_fullM` returns it, plus `dof_armature` on the diagonal), as lists of
+rows: same size, same entries.  Ingredients: `dynamics_eq_mj` (`cdof` equal, `cinr` ≙ `cinert`),
+`crb_eq_mj` (the representation map commutes with the backward accumulation), `SameInertia.mul`
+(the bilinear form is the same in both representations), `dofChain_mem_iff` (chain walk = ancestor
+mask + lower triangle), `flat_le_iff`/`flat_eq_iff` (flat order = block order), `armAt_flat`
+(nested armature = flat `dof_armature`). -/
+theorem massMatrix_eq_mj (s : Sys ℝ) (q qd ctrl : List ℝ) (h : DynOK s q qd) :
+    (dynInit s q qd).massMx = (MjD.forwardData s q qd ctrl).fullM := by
+  -- the CoM-frame inputs agree (`dynamics_eq_mj`; none of them reads the actuators)
+  have h' : DynOK { s with acts := [] } q qd := ⟨h.parents, h.links, h.wf, h.low, h.kin, h.basis⟩
+  obtain ⟨_, hcdof', _, _, hcinr', _, _⟩ :=
+    dynamics_eq_mj { s with acts := [] } q qd ctrl h' (by intro a ha; simp at ha)
+  have hcdof : (dynInit s q qd).com.cdof = (MjD.forwardData s q qd ctrl).cdof := hcdof'
+  have hcinr : List.Forall₂ SameInertia (dynInit s q qd).com.cinr (MjD.forwardData s q qd ctrl).cinert :=
+    hcinr'
+  set x := (Kin.forward s q qd).map (·.1) with hxdef
+  have hx : x.length = s.types.length := by
+    rw [hxdef, List.length_map]; exact forward_length s q qd h.parents h.links
+  obtain ⟨hc, hd⟩ := transformCom_lengths s x q qd hx h.parents h.links
+  set com := transformCom s x q qd with hcom
+  have hM : (dynInit s q qd).massMx = massMatrix s.parents com.cinr com.cdof
+      ((linkSlices s.types q qd s.dofs).map fun l => l.dofs.map (·.armature)) := rfl
+  have hF : (MjD.forwardData s q qd ctrl).fullM
+      = MjD.fullM s.types s.parents
+          (revAcc MjD.CInert.add s.parents (MjD.forwardData s q qd ctrl).cinert)
+          (MjD.forwardData s q qd ctrl).cdof.flatten (s.dofs.map (·.armature)) := rfl
+  have hC : (dynInit s q qd).com = com := rfl
+  rw [hC] at hcdof hcinr
+  rw [hM, hF, ← hcdof]
+  -- hinge/slide links have as many coordinates as dofs (`LinkOK`), so every link has as many
+  -- `cdof` rows as the slicing gave it dofs
+  have hq : ∀ l ∈ linkSlices s.types q qd s.dofs, l.typ ≠ .free → l.q.length = l.dofs.length := by
+    intro l hl hnf
+    rw [List.mem_iff_getElem] at hl
+    obtain ⟨i, hi, rfl⟩ := hl
+    have hi' : i < s.types.length := by rwa [linkSlices_length] at hi
+    have hmem : (s.parents[i]'(by rw [h.parents]; exact hi'), s.links[i]'(by rw [h.links]; exact hi'),
+        (linkSlices s.types q qd s.dofs)[i]) ∈ s.parents.zip (s.links.zip (linkSlices s.types q qd s.dofs)) := by
+      rw [List.mem_iff_getElem]
+      exact ⟨i, by simp [h.parents, h.links, linkSlices_length]; exact hi', by simp⟩
+    exact ((h.kin _ hmem).nonfree hnf).1
+  have hw := transformCom_widths s x q qd h.parents h.links hq
+  rw [← hcom] at hw
+  refine massMatrix_eq_fullM s.types s.parents com.cinr _ com.cdof _ _ (by rw [hd, h.parents]) (by rw [hd])
+    (by rw [hc, hd]) h.wf hcinr ((linkSlices_widthsOK s.types q qd s.dofs).congr hw) ?_
+  intro l r hl hr
+  rw [hd] at hl
+  exact armAt_flat s.types q qd s.dofs (wAt com.cdof) hw l r hl hr
+
+/-- entrywise form (same `entry` accessor as `massMatrix_symm`) -/
+theorem massMatrix_entry_eq_mj (s : Sys ℝ) (q qd ctrl : List ℝ) (h : DynOK s q qd) (i j : Nat) :
+    entry (dynInit s q qd).massMx i j = entry (MjD.forwardData s q qd ctrl).fullM i j := by
+  rw [massMatrix_eq_mj s q qd ctrl h]
+
+/-- consequently **MuJoCo's `fullM` (as the Spec computes it) is symmetric positive definite** on
+every `DynOK` ∧ `PhysOK` system: the two top-level mass-matrix theorems compose. -/
+theorem mj_fullM_spd (s : Sys ℝ) (q qd ctrl : List ℝ) (h : DynOK s q qd) (hp : PhysOK s)
+    (X : Nat → Nat → ℝ) :
+    (∀ i j, entry (MjD.forwardData s q qd ctrl).fullM i j = entry (MjD.forwardData s q qd ctrl).fullM j i)
+    ∧ ((∃ l r, l < (dynInit s q qd).com.cdof.length ∧ r < wAt (dynInit s q qd).com.cdof l ∧ X l r ≠ 0) →
+        0 < quadForm (MjD.forwardData s q qd ctrl).fullM (flatVec (dynInit s q qd).com.cdof X)) := by
+  rw [← massMatrix_eq_mj s q qd ctrl h]
+  obtain ⟨h1, _, h3⟩ := pipeline_massMatrix_spd s hp q qd X
+  exact ⟨h1, h3⟩
+
+/-! ### non-vacuity of the generic form: the two-link ℤ chain of `massMatrix_eq_keForm`
+
+`massMatrix_eq_mj` has `DynOK` as its only hypothesis, which the example above shows satisfiable.
+For `massMatrix_eq_fullM_of_same`: link types `[two, one]`, MuJoCo's 10 numbers read off `exCinr`,
+flat armature `[1, 0, 2]`; the hypotheses hold and both sides are the same non-trivial matrix. -/
+
+def exCinert : List (MjD.CInert ℤ) := exCinr.map fun I => ⟨I.i, I.tf.pos, I.mass⟩
+
+example : List.Forall₂ SameInertia exCinr exCinert := by
+  simp [exCinr, exCinert, SameInertia]
+
+example : WidthsOK [.two, .one] (wAt exCdof) := by
+  intro l hl _
+  match l with
+  | 0 => exact ⟨fun k hk => absurd hk (Nat.not_lt_zero k), by decide⟩
+  | 1 => exact ⟨fun k hk => by (have : k = 0 := by omega); subst this; decide, by decide⟩
+  | k + 2 => simp at hl
+
+example : massMatrix exPs exCinr exCdof exArm = [[17, -4, -1], [-4, 5, 2], [-1, 2, 4]] := by decide
+example : MjD.fullM [.two, .one] exPs (revAcc MjD.CInert.add exPs exCinert) exCdof.flatten [1, 0, 2]
+    = [[17, -4, -1], [-4, 5, 2], [-1, 2, 4]] := by decide
 
 end Brax.C02
